@@ -816,8 +816,9 @@ func condImplies(cond ssa.Value, val bool, depth int, out *[]fact) {
 			condImplies(x.Edges[cand], val, depth+1, out)
 			pred := x.Block().Preds[cand]
 			*out = append(*out, factsAtDepth(pred, depth+1)...)
+			return
 		}
-		return
+		// not decomposable: the phi itself is the atom
 	}
 	*out = append(*out, fact{cond, val})
 }
@@ -857,4 +858,72 @@ func sameSources(a, b ssa.Value) bool {
 		}
 	}
 	return true
+}
+
+// ---------------------------------------------------------------------------
+// Backward slice (data dependences inside one function, flow-insensitive for
+// memory: a load of a local depends on every store to it; an array/struct
+// literal depends on every store into it).
+
+func backSlice(v ssa.Value, stop func(ssa.Value) bool) map[ssa.Value]bool {
+	seen := map[ssa.Value]bool{}
+	var walk func(v ssa.Value)
+	walk = func(v ssa.Value) {
+		if v == nil || seen[v] {
+			return
+		}
+		seen[v] = true
+		if stop != nil && stop(v) {
+			return
+		}
+		switch x := v.(type) {
+		case *ssa.Alloc:
+			// everything stored into it (directly or into an element/field of it)
+			var addrs []ssa.Value
+			addrs = append(addrs, x)
+			for i := 0; i < len(addrs); i++ {
+				refs := addrs[i].Referrers()
+				if refs == nil {
+					continue
+				}
+				for _, r := range *refs {
+					switch y := r.(type) {
+					case *ssa.Store:
+						if y.Addr == addrs[i] {
+							walk(y.Val)
+						}
+					case *ssa.IndexAddr:
+						addrs = append(addrs, y)
+					case *ssa.FieldAddr:
+						addrs = append(addrs, y)
+					}
+				}
+			}
+			return
+		}
+		if in, ok := v.(ssa.Instruction); ok {
+			for _, op := range in.Operands(nil) {
+				if op != nil && *op != nil {
+					walk(*op)
+				}
+			}
+		}
+	}
+	walk(v)
+	return seen
+}
+
+// stringConst returns the value of a constant string SSA value.
+func stringConst(v ssa.Value) (string, bool) {
+	c, ok := unwrap(v).(*ssa.Const)
+	if !ok || c.Value == nil || c.Value.Kind().String() != "String" {
+		return "", false
+	}
+	s := c.Value.ExactString()
+	if len(s) >= 2 && s[0] == '"' {
+		if u, err := strconvUnquote(s); err == nil {
+			return u, true
+		}
+	}
+	return s, true
 }
